@@ -11,3 +11,25 @@ RULE = ("same histories as C19 (harness/src/bin/pool.rs); the whole internal sta
 def nontrivial(case, model_out):
     ops = opcodes(case)
     return bool(tagbits(case) & 1) and any(o in ("2", "3", "5") for o in ops)
+
+
+from . import poolcommon as _pc
+
+
+def judge(case, model_out):
+    return _pc.judge_c20(case, model_out)
+
+
+def inspect(case, model_out):
+    """C20's clauses evaluated directly on every observed implementation state (independent of the model)"""
+    cfg = _pc.config_of(case)
+    for k, f in enumerate(_pc.frames(case.out)):
+        if f is None:
+            return None
+        st = _pc.parse_state(f[1])
+        if st is None:
+            return "observation frame %d of the implementation does not parse" % k
+        why = _pc.invariant_failure(cfg, st)
+        if why:
+            return "state invariant broken after %s: %s" % (_pc.describe(case, k), why)
+    return None
